@@ -80,6 +80,33 @@ def loop_over_variables(fn, stmts):
 # ------------------------------------------------------------------------------------------ class tests
 
 
+# class names of isinstance tests -> pycls of Model/DecisionKinds.v; ISINST: (holds for the string "_", for a list)
+PY_CLASSES = {"list": "CList", "tuple": "CTuple", "str": "CStr", "Sequence": "CSeq", "abc.Sequence": "CSeq",
+              "collections.abc.Sequence": "CSeq", "np.ndarray": "CArr", "numpy.ndarray": "CArr", "ndarray": "CArr"}
+ISINST = {"CList": (False, True), "CTuple": (False, False), "CStr": (True, False), "CSeq": (True, True),
+          "CArr": (False, False)}
+
+
+def py_classes(node):
+    """the class argument of isinstance -> [pycls, ...] or None if a class is not listed"""
+    elts = node.elts if isinstance(node, ast.Tuple) else [node]
+    if isinstance(node, ast.BinOp) and isinstance(node.op, ast.BitOr):       # list | tuple
+        elts, todo = [], [node]
+        while todo:
+            n = todo.pop()
+            if isinstance(n, ast.BinOp) and isinstance(n.op, ast.BitOr):
+                todo += [n.right, n.left]
+            else:
+                elts.append(n)
+    out = []
+    for e in elts:
+        c = PY_CLASSES.get(u(e))
+        if c is None:
+            return None
+        out.append(c)
+    return out or None
+
+
 def class_test(test, var, cls):
     """Truth value of a branch test for a variable of class `cls`, or None if the shape is not listed."""
     scalar = cls == SCALAR
@@ -95,12 +122,12 @@ def class_test(test, var, cls):
     # (a str is a Sequence too, but every accepted chain tests `== "_"` first; see `if_chain`)
     if (isinstance(test, ast.Call) and is_name(test.func, "isinstance") and len(test.args) == 2
             and is_var_values(test.args[0], var)):
-        t = u(test.args[1])
-        if t in ("list", "(list, tuple)", "(tuple, list)"):
-            return not scalar
-        if t in ("Sequence", "abc.Sequence", "collections.abc.Sequence"):
+        cs = py_classes(test.args[1])
+        if cs is None:
+            return None
+        if cs == ["CSeq"]:
             return "sequence"
-        return None
+        return any(ISINST[c][0 if scalar else 1] for c in cs)
     # all(x == "_" for x in var.values[:] | var.values)
     if (isinstance(test, ast.Call) and is_name(test.func, "all") and len(test.args) == 1
             and isinstance(test.args[0], ast.GeneratorExp)):
@@ -1023,15 +1050,221 @@ def reporting(ar_tree, fd_tree):
     return champion, best, final, keeps_1d
 
 
+# ------------------------------------------------------------------------------------------ type tests of the walks
+
+
+def mentions_values(test, var):
+    """does the test look at var.values other than through len(var.values)?"""
+    lens = {id(n.args[0]) for n in ast.walk(test) if is_len_values(n, var)}
+    return any(is_var_values(n, var) and id(n) not in lens for n in ast.walk(test))
+
+
+def ttest_of(test, var):
+    """branch test on var.values -> (Coq ttest term, python evaluator (kind, n) -> bool)"""
+    if isinstance(test, ast.Compare) and len(test.ops) == 1 and isinstance(test.ops[0], (ast.Eq, ast.NotEq)):
+        a, b = test.left, test.comparators[0]
+        if isinstance(a, ast.Constant):
+            a, b = b, a
+        if is_var_values(a, var) and isinstance(b, ast.Constant) and b.value == "_":
+            eq = ("TEq", lambda k, n: k == "KUnd" or (k == "KArr" and n == 1))
+            if isinstance(test.ops[0], ast.Eq):
+                return eq
+            return ("(TNot TEq)", lambda k, n: not eq[1](k, n))
+    # type(var.values) is list / == list
+    if isinstance(test, ast.Compare) and len(test.ops) == 1 and isinstance(test.ops[0], (ast.Is, ast.Eq)) \
+            and isinstance(test.left, ast.Call) and is_name(test.left.func, "type") and len(test.left.args) == 1 \
+            and is_var_values(test.left.args[0], var):
+        cs = py_classes(test.comparators[0])
+        if cs and len(cs) == 1 and cs[0] != "CSeq":
+            return (f"(TInst [{cs[0]}])", lambda k, n, cs=cs: KIND_INST[k][cs[0]])
+    if (isinstance(test, ast.Call) and is_name(test.func, "isinstance") and len(test.args) == 2 and not test.keywords
+            and is_var_values(test.args[0], var)):
+        cs = py_classes(test.args[1])
+        if cs is None:
+            fail(test, "isinstance test on var.values with a class that is not listed")
+        return (f"(TInst [{'; '.join(cs)}])", lambda k, n, cs=cs: any(KIND_INST[k][c] for c in cs))
+    if class_test(test, var, SHARED) is True and isinstance(test, ast.Call) and is_name(test.func, "all"):
+        return ("TAllPh", lambda k, n: True)
+    if isinstance(test, ast.BoolOp):
+        parts = [ttest_of(t, var) for t in test.values]
+        con, py = ("TAnd", all) if isinstance(test.op, ast.And) else ("TOr", any)
+        term = parts[-1][0]
+        for t, _ in reversed(parts[:-1]):
+            term = f"({con} {t} {term})"
+        return (term, lambda k, n, parts=parts, py=py: py(f(k, n) for _, f in parts))
+    if isinstance(test, ast.UnaryOp) and isinstance(test.op, ast.Not):
+        t, f = ttest_of(test.operand, var)
+        return (f"(TNot {t})", lambda k, n, f=f: not f(k, n))
+    fail(test, "test on var.values is not one of the listed shapes")
+
+
+# isinst of Model/DecisionKinds.v
+KIND_INST = {
+    "KUnd": dict(CList=False, CTuple=False, CStr=True, CArr=False, CSeq=True),
+    "KList": dict(CList=True, CTuple=False, CStr=False, CArr=False, CSeq=True),
+}
+
+
+def type_tree(stmts, var, fn):
+    """The if / elif chains on var.values of a loop body as a decision tree.
+    -> ("leaf", raises, id) | ("if", (term, evaluator), then, else)"""
+    tests = [s for s in stmts if isinstance(s, ast.If) and mentions_values(s.test, var)]
+    for s in stmts:
+        if s in tests:
+            continue
+        for n in ast.walk(s):
+            if isinstance(n, (ast.If, ast.IfExp, ast.While)) and mentions_values(n.test, var):
+                fail(n, f"{fn.name}: a test on var.values below a statement that is not such a test")
+            if isinstance(n, (ast.Try, ast.Match)):
+                fail(n, f"{fn.name}: try / match in a walk over the variables")
+    if not tests:
+        return ("leaf", only_raises([s for s in stmts if not skip_stmt(s)]), object())
+    if len(tests) > 1:
+        fail(tests[1], f"{fn.name}: two separate chains of tests on var.values in one block")
+    s = tests[0]
+    return ("if", ttest_of(s.test, var), type_tree(s.body, var, fn), type_tree(s.orelse, var, fn))
+
+
+def tree_leaf(tree, k, n):
+    while tree[0] == "if":
+        tree = tree[2] if tree[1][1](k, n) else tree[3]
+    return tree
+
+
+def emit_tree(tree, labels):
+    if tree[0] == "leaf":
+        return f"(GLeaf {labels.get(id(tree[2]), 'ORaise' if tree[1] else 'OSkip')})"
+    return f"(GIf {tree[1][0]} {emit_tree(tree[2], labels)} {emit_tree(tree[3], labels)})"
+
+
+def walk_tree(fn, loop, var):
+    """-> Coq gtree of one walk: the leaf a "_" reaches does the scalar thing, the leaf a list reaches the vector
+    thing (what those are is read by set_bound / convert / update above); every other leaf raises or does nothing."""
+    tree = type_tree(loop.body, var, fn)
+    ls, lv = tree_leaf(tree, "KUnd", 1), tree_leaf(tree, "KList", 2)
+    if ls is lv:
+        fail(loop, f"{fn.name}: the string \"_\" and a list of placeholders take the same branch")
+    if ls[1] or lv[1]:
+        fail(loop, f"{fn.name}: refuses every scalar or every list of placeholders")
+    return emit_tree(tree, {id(ls[2]): "OScalar", id(lv[2]): "OVector"})
+
+
+def type_tests(fd_tree):
+    out = {}
+    for name in ("_set_bound", "convert_to_parameters", "update_processor"):
+        fn = find_func(fd_tree, name, CLS)
+        _, loop, var = loop_over_variables(fn, body_no_doc(fn))
+        out[name] = walk_tree(fn, loop, var)
+    # __init__: the count of parameters (a loop over self._variables, anywhere at top level of the body)
+    init = find_func(fd_tree, "__init__", CLS)
+    loops = [s for s in body_no_doc(init) if isinstance(s, ast.For) and is_attr(s.iter, "self", "_variables")]
+    if len(loops) > 1:
+        fail(loops[1], "__init__: more than one loop over self._variables")
+    if loops:
+        if not is_name(loops[0].target) or loops[0].orelse:
+            fail(loops[0], "__init__: the loop must be `for <var> in self._variables:`")
+        out["__init__"] = f"(Some {walk_tree(init, loops[0], loops[0].target.id)})"
+    else:
+        out["__init__"] = "None"
+    return out
+
+
+CONTAINERS = {"list": "KList", "tuple": "KTuple", "np.array": "KArr", "np.asarray": "KArr", "numpy.array": "KArr"}
+
+
+def container_of(e, env):
+    """the kind of the OUTER container an expression of convert_values builds, or None"""
+    if isinstance(e, (ast.ListComp, ast.List)):
+        return "KList"
+    if isinstance(e, ast.Tuple):
+        return "KTuple"
+    if isinstance(e, ast.Call) and u(e.func) in CONTAINERS and len(e.args) == 1:
+        return CONTAINERS[u(e.func)]
+    if isinstance(e, ast.Name):
+        return env.get(e.id)
+    return None
+
+
+def convert_values_norm(pv_tree):
+    """convert_values (parameter_values.py): which outer container `ParameterValues.values` is, per class of the
+    container handed in -> norm_desc"""
+    fn = find_func(pv_tree, "convert_values")
+    params = [a.arg for a in fn.args.args]
+    if len(params) != 2:
+        fail(fn, "convert_values signature")
+    vname, tname = params
+    stmts = [s for s in body_no_doc(fn) if not skip_stmt(s)]
+    keep_simple = keep_und = False
+    # if parameter_type is ParameterType.Simple or values == "_": return values
+    if stmts and isinstance(stmts[0], ast.If) and not stmts[0].orelse and len(stmts[0].body) == 1 \
+            and isinstance(stmts[0].body[0], ast.Return) and is_name(stmts[0].body[0].value, vname):
+        t = stmts[0].test
+        for c in (t.values if isinstance(t, ast.BoolOp) and isinstance(t.op, ast.Or) else [t]):
+            if isinstance(c, ast.Compare) and len(c.ops) == 1 and isinstance(c.ops[0], (ast.Is, ast.Eq)) \
+                    and is_name(c.left, tname) and u(c.comparators[0]) == "ParameterType.Simple":
+                keep_simple = True
+            elif isinstance(c, ast.Compare) and len(c.ops) == 1 and isinstance(c.ops[0], ast.Eq) \
+                    and is_name(c.left, vname) and isinstance(c.comparators[0], ast.Constant) \
+                    and c.comparators[0].value == "_":
+                keep_und = True
+            else:
+                fail(c, "convert_values: the guard of `return values` is not a listed shape")
+        stmts = stmts[1:]
+    env, rules, default = {}, [], None
+    for s in stmts:
+        ap = assign_parts(s)
+        if ap and is_name(ap[0]):
+            k = container_of(ap[1], env)
+            if k is None:
+                fail(s, "convert_values: assignment of something that is not a listed container")
+            env[ap[0].id] = k
+            continue
+        if isinstance(s, ast.If) and not s.orelse and len(s.body) == 1 and isinstance(s.body[0], ast.Return) \
+                and isinstance(s.test, ast.Call) and is_name(s.test.func, "isinstance") and len(s.test.args) == 2 \
+                and is_name(s.test.args[0], vname):
+            cs = py_classes(s.test.args[1])
+            k = container_of(s.body[0].value, env)
+            if cs is None or k is None:
+                fail(s, "convert_values: `if isinstance(values, ...): return ...` with an unlisted class / container")
+            rules += [(c, k) for c in cs]
+            continue
+        if isinstance(s, ast.Return):
+            default = container_of(s.value, env)
+            if default is None:
+                fail(s, "convert_values: the value returned is not a listed container")
+            if s is not stmts[-1]:
+                fail(s, "convert_values: statements after the final return")
+            continue
+        fail(s, "convert_values: statement is not a listed shape")
+    if default is None:
+        fail(fn, "convert_values: no final return of a container")
+    # ParameterValues.__init__ keeps convert_values(values, ...) and nothing else under self._values
+    init = find_func(pv_tree, "__init__", "ParameterValues")
+    kept = [assign_parts(s) for s in ast.walk(init) if isinstance(s, (ast.Assign, ast.AnnAssign)) and assign_parts(s)
+            and is_attr(assign_parts(s)[0], "self", "_values")]
+    if len(kept) != 1 or not (isinstance(kept[0][1], ast.Call) and is_name(kept[0][1].func, "convert_values")
+                              and kept[0][1].args and is_name(kept[0][1].args[0], "values")):
+        fail(init, "ParameterValues.__init__: self._values is not convert_values(values, ...)")
+    rl = "[" + "; ".join(f"({c}, {k})" for c, k in rules) + "]"
+    return f"(mkNorm {cb(keep_simple)} {cb(keep_und)} {rl} {default})"
+
+
 # ------------------------------------------------------------------------------------------ emission
 
 PRELUDE = ("From Coq Require Import List Bool Arith String.\n"
-           "From PyxelV Require Import Model.Decision Model.DecisionSrc.\n"
+           "From PyxelV Require Import Model.Decision Model.DecisionSrc Model.DecisionKinds.\n"
            "Import ListNotations.\n")
 
 
 def cb(b: bool) -> str:
     return "true" if b else "false"
+
+
+def emit_kinds(norm, tt) -> str:
+    return ("Definition src_kinds : kdesc :=\n"
+            f"  mkKd {norm}\n"
+            f"    {tt['_set_bound']}\n    {tt['__init__']}\n    {tt['convert_to_parameters']}\n"
+            f"    {tt['update_processor']}.\n")
 
 
 def emit(rows, getter, sb, cv, up, init_copy, fit_conv, rep) -> str:
@@ -1056,10 +1289,11 @@ def translate(repo: Path) -> str:
     up = update(fd)
     init_copy, fit_conv = init_and_fitness(fd)
     rep = reporting(parse(repo, AR), fd)
-    return emit(rows, getter, sb, cv, up, init_copy, fit_conv, rep)
+    return emit(rows, getter, sb, cv, up, init_copy, fit_conv, rep) + emit_kinds(convert_values_norm(pv), type_tests(fd))
 
 
 # the description of the unchanged tree; used only to keep a model available for the failing-input search
 # when the translation itself fails (the failed translation is already a broken obligation)
 FALLBACK = (HEADER + PRELUDE + "Definition src_desc : wdesc := desc_as_coded.\n"
-            "Definition src_report : rp_desc := mkRp true true true true.\n")
+            "Definition src_report : rp_desc := mkRp true true true true.\n"
+            "Definition src_kinds : kdesc := kinds_as_coded.\n")
